@@ -262,7 +262,7 @@ func (h *harness) oracle3(pr params, s sdf.SDF3, kids []interface{}, desc, coq, 
 		}
 		return true
 	}
-	pts := h.pts3(s, npts)
+	pts := h.allPts3(pr, s, kids, origin) // random points + exact-seam points of n-ary nodes (seam.go)
 	switch pr.kind {
 	case "fUnion3":
 		for _, p := range pts {
@@ -624,12 +624,13 @@ func (h *harness) oracle2(pr params, s sdf.SDF2, kids []interface{}, desc, coq, 
 		}
 		return true
 	}
-	pts := h.pts2(s, npts)
+	pts := h.allPts2(pr, s, kids, origin) // random points + exact-seam points of n-ary nodes (seam.go)
 	switch pr.kind {
 	case "fUnion2":
 		for _, p := range pts {
 			var vals []float64
-			pruneOK := true // the hypotheses of C02_union2_sem / C16_union_prune_eq at this point
+			var lowers []bool
+			pruneOK, lowerOK := true, true // the hypotheses of C02_union2_sem / C16_union_prune_eq at this point
 			for _, k := range kids {
 				x := ev2(k, p)
 				vals = append(vals, x)
@@ -637,20 +638,36 @@ func (h *harness) oracle2(pr params, s sdf.SDF2, kids []interface{}, desc, coq, 
 				lower := (x > 0 || iv[0] == 0) && (x < 0 || iv[0] <= x*x*(1+1e-9)) // value >= distance to the operand's box
 				upper := x <= 0 || x*x <= iv[1]*(1+1e-9)                           // a point of the solid in the box, 1-Lipschitz
 				pruneOK = pruneOK && lower && upper
+				lowerOK = lowerOK && lower
+				lowers = append(lowers, lower)
 			}
 			got := s.Evaluate(p)
 			if pr.blend == "MinDef" && !pruneOK {
-				// an operand breaks the contract the bounding-box pruning relies on (e.g. its solid is empty):
-				// outside the claimed class only the weaker facts are checked - the result is one of the
-				// operand values, not below the minimum, and negative iff some operand is negative
+				// an operand breaks the contract the bounding-box pruning relies on.  Outside the claimed
+				// class the strongest statement that holds for ARBITRARY operands is checked: the result is
+				// one of the operand values, not below the minimum, and not above the value of any operand
+				// that itself respects the lower bound (value >= distance to its own box; in particular every
+				// operand that is negative inside its box).  Only an operand with material OUTSIDE its own
+				// box (C01 violated for it, e.g. a material-adding blend: known C01 finding) may be missed.
 				h.hist["fUnion2/operand-outside-pruning-contract"]++
 				m, member := math.Inf(1), false
 				for _, x := range vals {
 					m = math.Min(m, x)
 					member = member || sameBits(x, got)
 				}
-				if !member || got < m || (m < 0) != (got < 0) {
-					v.at(p, fmt.Sprintf("Union2D: Evaluate = %g with operand values %v", got, vals))
+				bad := !member || got < m
+				for i, x := range vals {
+					bad = bad || (lowers[i] && !leq(got, x, x))
+				}
+				if lowerOK && (m < 0) != (got < 0) {
+					bad = true
+				}
+				if !lowerOK && !bad && !sameBits(got, m) {
+					// consequence of the known C01 finding (material outside the operand's box): counted, not a new key
+					h.hist["fUnion2/not-the-minimum-because-an-operand-has-material-outside-its-box"]++
+				}
+				if bad {
+					v.at(p, fmt.Sprintf("Union2D: Evaluate = %g with operand values %v (operands respecting their box lower bound: %v)", got, vals, lowers))
 				}
 				continue
 			}
